@@ -276,6 +276,21 @@ def r3(idx, rep):
                         bad = bad or f"{cfg}: evaluated {ev}, documented {want_ev} (in order, short-circuit at the first non-matching expression)"
                     if p.result != ("return", result if dm else (not result)):
                         bad = bad or f"{cfg}: line_matches returns {p.result}, documented {result}"
+                    # memo discipline: a vote taken here is written down so that the matcher does not evaluate that expression a second
+                    # time on this line (its side effects would run twice) — except for the component's own expression, which the matcher
+                    # is evaluating right now
+                    final = p.final_store.get("self.matcher.expressions")
+                    want_memo = list(memo)
+                    for name in want_ev:
+                        i = int(name[1:])
+                        v = votes.get(name)
+                        if not v:
+                            want_memo[i] = False
+                        elif v is True and i != 0:
+                            want_memo[i] = True
+                    got_memo = [e[1] for e in final]
+                    if got_memo != want_memo:
+                        bad = bad or f"{cfg}: memoised votes after the look-ahead {got_memo}, documented {want_memo} (own expression e0 is not memoised as matching)"
                     rc = len(p.calls("raise_match_count_if"))
                     if rc != (1 if result else 0):
                         bad = bad or f"{cfg}: raise_match_count_if called {rc}x; it may only be raised when every expression matched"
